@@ -244,3 +244,177 @@ pub proof fn lemma_closed_from_iv(r: asp::Rule, iv: Seq<String>)
     let ts = head_args(r.head);
     assert forall|i: int| 0 <= i < ts.len() implies #[trigger] arith_closed(ts[i], iv) by { assert(ts.contains(ts[i])); assert(top_term(r, ts[i])); }
 }
+
+// ---- free variables of a translated head ---------------------------------------------------------------------------------------
+pub proof fn lemma_nat_head_fv(hf: Formula, terms: Seq<asp::Term>, choice: bool, p: Seq<char>, iv: Seq<String>, names: Seq<String>, fs: Seq<Formula>, concl: Formula, k: VKey)
+    requires nat_head_wit(hf, terms, choice, p, iv, names, fs, concl), head_closed(terms, iv), fv(hf, k),
+    ensures terms_in(terms, (k.0, Sort::General)) && k == nkey(iv, k.0),
+{
+    let args = head_args_seq(terms, iv, names);
+    let pos = nonreg_positions(terms, terms.len() as int);
+    lemma_nonreg_positions(terms, terms.len() as int);
+    lemma_ivars_bound(names, k);
+    reveal_with_fuel(fv, 3);
+    let conds = spec_conjoin(fs);
+    // k is free in the conclusion or in the conditions, and is not one of the N's
+    let in_concl = fv(concl, k);
+    let in_conds = names.len() > 0 && fv(conds, k);
+    assert(in_concl || in_conds);
+    assert(!bound_by(ivars(names), k)) by { if names.len() == 0 { assert(!bound_by(ivars(names), k)); } }
+    if in_concl {
+        lemma_concl(concl, choice, p, args, World::Here, HT { h: |a: Seq<char>, b: Seq<Val>| false, t: |a: Seq<char>, b: Seq<Val>| false, fc: |a: Seq<char>, b: Sort| Val::Inf }, Map::empty());
+        let i = choose|i: int| 0 <= i < args.len() && #[trigger] in_gen(args[i], k);
+        lemma_rank(terms, i);
+        if spec_reg1(terms[i]) {
+            assert(arith_closed(terms[i], iv));
+            lemma_p2f_fv(terms[i], iv, spec_p2f(terms[i], iv)->Some_0, k);
+        } else {
+            assert(k == int_key(names[nrank(terms, i)]));
+        }
+    } else {
+        lemma_conjoin_fv(fs, k);
+        let q = choose|q: int| 0 <= q < fs.len() && #[trigger] fv(fs[q], k);
+        let i = pos[q];
+        assert(cmp2(lo_of(terms, iv, i), Relation::LessEqual, nvar_term(names[q]), Relation::LessEqual, hi_of(terms, iv, i), fs[q]));
+        lemma_cmp2_fv(lo_of(terms, iv, i), Relation::LessEqual, nvar_term(names[q]), Relation::LessEqual, hi_of(terms, iv, i), fs[q], k);
+        let t = terms[i];
+        let t2 = *t->BinaryOperation_lhs;
+        let t3 = *t->BinaryOperation_rhs;
+        assert(arith_closed(t, iv) && is_op(t));
+        assert forall|kk: VKey| #[trigger] asp_in_term(t2, kk) implies is_int_var(iv, kk.0) by { assert(asp_in_term(t, kk)); }
+        assert forall|kk: VKey| #[trigger] asp_in_term(t3, kk) implies is_int_var(iv, kk.0) by { assert(asp_in_term(t, kk)); }
+        if in_gen(nvar_term(names[q]), k) { assert(k == int_key(names[q])); }
+        if in_gen(lo_of(terms, iv, i), k) { lemma_p2f_fv(t2, iv, lo_of(terms, iv, i), k); assert(asp_in_term(t, (k.0, Sort::General))); }
+        if in_gen(hi_of(terms, iv, i), k) { lemma_p2f_fv(t3, iv, hi_of(terms, iv, i), k); assert(asp_in_term(t, (k.0, Sort::General))); }
+    }
+}
+
+// ---- the matrix  body -> head  under corresponding assignments ------------------------------------------------------------------
+pub open spec fn nat_head_of(hf: Formula, h: asp::Head, iv: Seq<String>) -> bool {
+    match h {
+        asp::Head::Basic(a) => nat_head_shape(hf, a.terms@, false, a.predicate_symbol@, iv),
+        asp::Head::Choice(a) => nat_head_shape(hf, a.terms@, true, a.predicate_symbol@, iv),
+        asp::Head::Falsity => is_falsity(hf),
+    }
+}
+
+pub proof fn lemma_nat_head_of(hf: Formula, h: asp::Head, iv: Seq<String>, w: World, m: HT, g: Asg, s: Asg)
+    requires nat_head_of(hf, h, iv), head_closed(head_args(h), iv), corr(g, s, iv, |k: VKey| head_in(h, k)), ht_wf(m),
+    ensures ht_sat(hf, w, m, s) == head_sat(h, w, m, g),
+{
+    match h {
+        asp::Head::Falsity => {}
+        _ => {
+            let terms = head_args(h);
+            let p = head_pred(h);
+            let choice = h is Choice;
+            let (names, fs, concl) = choose|names: Seq<String>, fs: Seq<Formula>, concl: Formula| #[trigger] nat_head_wit(hf, terms, choice, p, iv, names, fs, concl);
+            assert(corr(g, s, iv, |k: VKey| terms_in(terms, k)));
+            lemma_nat_head(hf, terms, choice, p, iv, names, fs, concl, w, m, g, s);
+        }
+    }
+}
+
+pub proof fn lemma_nat_head_of_fv(hf: Formula, h: asp::Head, iv: Seq<String>, k: VKey)
+    requires nat_head_of(hf, h, iv), head_closed(head_args(h), iv), fv(hf, k),
+    ensures head_in(h, (k.0, Sort::General)) && k == nkey(iv, k.0),
+{
+    match h {
+        asp::Head::Falsity => {}
+        _ => {
+            let terms = head_args(h);
+            let p = head_pred(h);
+            let choice = h is Choice;
+            let (names, fs, concl) = choose|names: Seq<String>, fs: Seq<Formula>, concl: Formula| #[trigger] nat_head_wit(hf, terms, choice, p, iv, names, fs, concl);
+            lemma_nat_head_fv(hf, terms, choice, p, iv, names, fs, concl, k);
+        }
+    }
+}
+
+/// body_n -> head_n: the shape natural_rule closes universally
+pub open spec fn nat_matrix(mx: Formula, r: asp::Rule, iv: Seq<String>) -> bool {
+    is_imp(mx) && nat_body_shape(imp_lhs(mx), r.body.formulas@, iv) && nat_head_of(imp_rhs(mx), r.head, iv)
+}
+
+pub proof fn lemma_nat_matrix(mx: Formula, r: asp::Rule, iv: Seq<String>, w: World, m: HT, g: Asg, s: Asg)
+    requires nat_matrix(mx, r, iv), int_vars_ok(iv, r), corr(g, s, iv, |k: VKey| rule_in(r, k)), ht_wf(m),
+    ensures ht_sat(mx, w, m, s) == inst_sat(r, w, m, g),
+{
+    lemma_closed_from_iv(r, iv);
+    let body = r.body.formulas@;
+    assert(corr(g, s, iv, |k: VKey| body_in(body, k)));
+    assert(corr(g, s, iv, |k: VKey| head_in(r.head, k)));
+    lemma_nat_body(imp_lhs(mx), body, iv, w, m, g, s);
+    lemma_nat_body(imp_lhs(mx), body, iv, World::There, m, g, s);
+    lemma_nat_head_of(imp_rhs(mx), r.head, iv, w, m, g, s);
+    lemma_nat_head_of(imp_rhs(mx), r.head, iv, World::There, m, g, s);
+}
+
+pub proof fn lemma_nat_matrix_fv(mx: Formula, r: asp::Rule, iv: Seq<String>, k: VKey)
+    requires nat_matrix(mx, r, iv), int_vars_ok(iv, r), fv(mx, k),
+    ensures rule_in(r, (k.0, Sort::General)) && k == nkey(iv, k.0),
+{
+    lemma_closed_from_iv(r, iv);
+    if fv(imp_lhs(mx), k) { lemma_nat_body_fv(imp_lhs(mx), r.body.formulas@, iv, k); }
+    else { lemma_nat_head_of_fv(imp_rhs(mx), r.head, iv, k); }
+}
+
+/// C08: the universal closure of the matrix has the meaning of the rule
+pub proof fn lemma_nat_rule(f: Formula, mx: Formula, r: asp::Rule, iv: Seq<String>)
+    requires nat_matrix(mx, r, iv), int_vars_ok(iv, r), f == spec_ucl(mx),
+    ensures rule_ok(f, r),
+{
+    let keys = rule_keys(r);
+    assert forall|i: int| 0 <= i < keys.len() implies (#[trigger] keys[i]).1 == Sort::General by { assert(keys.contains(keys[i])); lemma_rule_keys(r, keys[i]); }
+    assert forall|w: World, m: HT, s: Asg| ht_wf(m) implies #[trigger] ht_sat(f, w, m, s) == rule_sat(r, w, m) by {
+        if ht_sat(f, w, m, s) {
+            assert forall|g: Asg| #[trigger] inst_sat(r, w, m, g) by {
+                if exists|k: VKey| rule_in(r, k) && is_int_var(iv, k.0) && !(#[trigger] g[k] is Int) {
+                    let k = choose|k: VKey| rule_in(r, k) && is_int_var(iv, k.0) && !(#[trigger] g[k] is Int);
+                    lemma_rule_keys(r, k);
+                    assert(k == (k.0, Sort::General));
+                    lemma_iv_trivial(r, iv, w, m, g, k.0);
+                } else {
+                    let s2 = nat_asg(s, keys, iv, g);
+                    lemma_nat_asg(s, keys, iv, g);
+                    assert forall|k: VKey| rule_in(r, k) implies s2[nkey(iv, k.0)] == g[k] by {
+                        lemma_rule_keys(r, k);
+                        let i = choose|i: int| 0 <= i < keys.len() && keys[i] == k;
+                        assert(s2[nkey(iv, keys[i].0)] == g[keys[i]]);
+                    }
+                    assert(corr(g, s2, iv, |k: VKey| rule_in(r, k))) by {
+                        assert forall|k: VKey| rule_in(r, k) implies #[trigger] g[k] == nval(s2, iv, k.0) by {
+                            assert(s2[nkey(iv, k.0)] == g[k]);
+                            if is_int_var(iv, k.0) { assert(g[k] is Int); }
+                        }
+                    }
+                    assert forall|k: VKey| fv(mx, k) implies in_sort(#[trigger] s2[k], k.1) by {
+                        lemma_nat_matrix_fv(mx, r, iv, k);
+                        let pk = (k.0, Sort::General);
+                        assert(s2[nkey(iv, pk.0)] == g[pk]);
+                        if is_int_var(iv, k.0) { assert(g[pk] is Int); }
+                    }
+                    lemma_ucl_inst_ht(mx, w, m, s, s2);
+                    lemma_nat_matrix(mx, r, iv, w, m, g, s2);
+                }
+            }
+        }
+        if rule_sat(r, w, m) {
+            assert forall|s2: Asg| #[trigger] ht_sat(mx, w, m, s2) by {
+                let g = prog_asg(s2, keys, iv, s2);
+                lemma_prog_asg(s2, keys, iv, s2);
+                assert(corr(g, s2, iv, |k: VKey| rule_in(r, k))) by {
+                    assert forall|k: VKey| rule_in(r, k) implies #[trigger] g[k] == nval(s2, iv, k.0) by {
+                        lemma_rule_keys(r, k);
+                        let i = choose|i: int| 0 <= i < keys.len() && keys[i] == k;
+                        assert(g[keys[i]] == nval(s2, iv, keys[i].0));
+                    }
+                }
+                assert(inst_sat(r, w, m, g));
+                lemma_nat_matrix(mx, r, iv, w, m, g, s2);
+            }
+            lemma_ucl_intro_ht(mx, w, m, s);
+        }
+    }
+    assert forall|k: VKey| !#[trigger] fv(f, k) by { lemma_ucl_closed(mx, k); }
+}
